@@ -123,7 +123,37 @@ META = {
                     "set_note and __init__ (no-dash names). Bounded: text forms, copy, Helmholtz round trip, Hz round trip "
                     "(12.8k cases, quick tier). Former deviation repaired in /repo: e51ef4c (Helmholtz flats).",
     ),
+    "C16": dict(
+        claimed=True, level="other",
+        technique="contract-based deductive verification of the byte-level encoders and chunk framing; whole-file semantics by an independent SMF decoder (bounded)",
+        level_text="Proved for all inputs in the stated ranges, bytes modelled exactly: the variable-length encoder equals the "
+                   "standard encoding for EVERY integer 0..2^28-1 (math.log enters only through an assumed, run-time validated "
+                   "contract); every channel event is pending-delta + status(channel | type<<4) + data bytes and asserts exactly on "
+                   "out-of-range fields; set_deltatime; tempo event = FF 51 03 + big-endian 60000000 div bpm for every bpm >= 4; "
+                   "time-signature and key-signature events (all 30 keys, two's-complement count, mode flag); track chunk = MTrk + "
+                   "big-endian length == content + end-of-track. The walkers (play_Bar/Track, writers, repeat counts) and 'decodes "
+                   "to exactly the music written' are NOT proved: independent SMF decoder over systematic and seeded compositions "
+                   "(bounded driver).",
+        level_note=TB + " Assumed: A_log (floor(math.log(x, b)) exact for 1 <= x < 2^28, b in {2,128}), validated by battery "
+                        "log_domain on every run; binascii/struct are modelled built-ins.",
+        explanation="Deductive: int_to_varbyte, midi_event (both arities), note_on/off, controller_event, program_change_event, "
+                    "set_deltatime, set_tempo_event, time_signature_event, key_signature_event, end_of_track, header, "
+                    "get_midi_data. Bounded: everything that walks containers, via bounded/drivers/C16.py.",
+    ),
+    "C17": dict(
+        claimed=True, level="other",
+        technique="contract-based deductive verification of the variable-length reader and header parsing; write-then-read round trip by bounded driver",
+        level_text="Proved: the variable-length reader returns the value of the 7-bit groups and advances file position and byte "
+                   "counter by exactly the quantity's length for every well-formed 1..4-byte quantity (ghost file model), which "
+                   "together with C16's encoder contract gives decode(encode(n)) == n for all 0 <= n < 2^28; the track-header "
+                   "parser returns the big-endian chunk size and raises the header error exactly when the tag is not MTrk; "
+                   "60000000 div (60000000 div bpm) == bpm for every bpm 4..1000 (complete split). The event-stream-to-bars "
+                   "reader (MIDI_to_Composition) is NOT proved: write-then-read over systematic and seeded compositions (bounded).",
+        level_note=TB + " Assumed (bounded only): bytes_to_int == big-endian value (binascii.b2a_hex + int(.,16)), A_log.",
+        explanation="Deductive: parse_varbyte_as_int, parse_track_header, tempo round trip lemma, VLQ inverse through the two "
+                    "contracts. Bounded: MIDI_to_Composition round trip via bounded/drivers/C17.py.",
+    ),
 }
 
 _NOT_YET = "not yet brought under contract in this build step (see DESIGN.md §9 for the plan); nothing is claimed"
-NOT_APPLICABLE = dict(("C%02d" % i, _NOT_YET) for i in [7, 8] + list(range(11, 21)))
+NOT_APPLICABLE = dict(("C%02d" % i, _NOT_YET) for i in [7, 8, 11, 12, 13, 14, 15, 18, 19, 20])
